@@ -6,14 +6,14 @@ from fractions import Fraction
 
 import z3
 
-from . import models
+from . import models, optdict
 from .interp import (Ctx, Frame, PyRaise, _Return, _Break, _Continue, PathEnd, Infeasible, NeedFork,
                      CannotMerge, exc_is_subclass, is_pynum, kind_of, zof, join_kind, mk, zbool,
                      FP, RNE)
 from .values import (S, VOpt, VQty, VTime, VDelta, VEnum, SEnum, VRec, VRef, HObj, HList, HDict,
                      HSet, SymSeq, SymSet, SymMap, FuncRef, ClassRef, ModRef, ExtRef,
                      BoundBuiltin, Opaque, Unsupported, fresh_name, zreal, float_literal, GhostSeq,
-                     KeySetVal, HKeySet)
+                     KeySetVal, HKeySet, HOptDict)
 
 
 class SpecFn:
@@ -135,6 +135,8 @@ class Interp:
             if isinstance(h, HKeySet):
                 from . import keysets
                 return keysets.enumeration(self.engine, self, h.val).length > 0
+            if isinstance(h, HOptDict):
+                return optdict.truth(self, h)
             ci = self.engine.class_info(h.cls)
             if ci and ("__bool__" in ci.methods or "__len__" in ci.methods):
                 m = "__bool__" if "__bool__" in ci.methods else "__len__"
@@ -762,6 +764,8 @@ class Interp:
             if isinstance(h, HKeySet):
                 from . import keysets
                 return keysets.contains(self.engine, self, h.val, item)
+            if isinstance(h, HOptDict):
+                return optdict.contains(self, h, item)
             if isinstance(h, HList):
                 return self.contains(tuple(h.items), item)
             if isinstance(h, (HSet, HDict)):
@@ -868,6 +872,8 @@ class Interp:
                 return self.index_concrete(h.items, idx)
             if isinstance(h, HDict):
                 return self.dict_get(h, idx, raise_missing=True)
+            if isinstance(h, HOptDict):
+                return optdict.getitem(self, h, idx)
             ci = self.engine.class_info(h.cls)
             if ci and "__getitem__" in ci.methods:
                 return self.call_method(base, "__getitem__", [idx], {})
@@ -1242,6 +1248,8 @@ class Interp:
                 return list(h.items)
             if isinstance(h, (HSet, HDict)):
                 return list(h.items)
+            if isinstance(h, HOptDict):
+                return optdict.present_keys(self, h)
         r = models.iterate_model(self, v)
         if r is not NotImplemented:
             return r
@@ -1486,6 +1494,9 @@ class Interp:
         if isinstance(obj, VRef):
             h = self.ctx.deref(obj)
             self.ctx.mutate()
+            if isinstance(h, HOptDict):
+                optdict.setitem(self, h, idx, v)
+                return
             if isinstance(h, HList):
                 if isinstance(idx, int):
                     try:
@@ -1514,6 +1525,9 @@ class Interp:
                     continue
                 h = self.ctx.deref(obj)
                 self.ctx.mutate()
+                if isinstance(h, HOptDict):
+                    optdict.delitem(self, h, idx)
+                    continue
                 if isinstance(h, HDict):
                     k = self.hashable(idx)
                     if k not in h.items:
